@@ -183,3 +183,29 @@ def capture(fn, *a, **kw):
         info = ExcInfo(e)
         del e
         return None, info
+
+
+class time_limit:
+    """SIGALRM-based guard around a library call that may spin on garbage input.  Only used
+    where a violation has ALREADY been established or the input is known-bad; never part of a
+    pass/fail decision on healthy runs."""
+
+    def __init__(self, seconds: float):
+        self.seconds = seconds
+
+    def __enter__(self):
+        import signal
+
+        def _raise(signum, frame):
+            raise TimeoutError(f"library call exceeded {self.seconds}s")
+
+        self._old = signal.signal(signal.SIGALRM, _raise)
+        signal.setitimer(signal.ITIMER_REAL, self.seconds)
+        return self
+
+    def __exit__(self, *exc):
+        import signal
+
+        signal.setitimer(signal.ITIMER_REAL, 0)
+        signal.signal(signal.SIGALRM, self._old)
+        return False
